@@ -51,7 +51,9 @@ URLCH = "abcdefghijklmnopqrstuvwxyz0123456789-._~%/?=&:+"
 _AL = "ABCDEFGHIJKLMNOPQRSTUVWXYZabcdefghijklmnopqrstuvwxyz0123456789"
 # first character alphanumeric: argparse takes a value starting with '-' for an option
 ID = st.builds(lambda a, b: a + b, st.sampled_from(_AL), st.text(_AL + "-_.", min_size=0, max_size=7))
-ACCT = st.builds(lambda a, b: a + b, st.sampled_from(_AL), st.text(_AL + "-", min_size=0, max_size=9))
+_ACCT_PLAIN = st.builds(lambda a, b: a + b, st.sampled_from(_AL), st.text(_AL + "-", min_size=0, max_size=9))
+# card- and IBAN-style grouping: an account id may contain single blanks
+ACCT = st.one_of(_ACCT_PLAIN, _ACCT_PLAIN, _ACCT_PLAIN, st.sampled_from(["3782 822463 10005", "DE89 3704 0044 0532", "12 34", "A B"]))
 
 
 def url_st():
@@ -318,6 +320,18 @@ class ConfigMachine(RuleBasedStateMachine):
             self.flags.add("skipped: unclosedelements with version>=200")
         have_url = exp["url"] not in NULLS
         file_before = G.user_cfg_path(self.root).read_bytes() if G.user_cfg_path(self.root).exists() else None
+        # where the nickname stands on the command line is the user's choice: first, last, or right after an account option
+        where = H.chash([nick, mode, sorted(cli_vals)])[-1]
+        if argv[1] == nick and where in "01234567":
+            rest = argv[2:]
+            if where in "0123" or not any(a in CLI_FLAG.values() for a in rest):
+                argv = [argv[0]] + rest + [nick]
+                self.flags.add("nickname last on the command line")
+            else:
+                i = next(i for i, a in enumerate(rest) if a in CLI_FLAG.values() and a != "--user")  if any(a in CLI_FLAG.values() and a != "--user" for a in rest) else None
+                if i is not None:
+                    argv = [argv[0]] + rest[: i + 2] + [nick] + rest[i + 2 :]
+                    self.flags.add("nickname right after an account option")
         r = G.run(self.root, argv, handler=(mode != "merge") and have_url)
         if r.merged is None:
             if have_url or mode == "dry-write":
